@@ -378,6 +378,22 @@ fn derived(c: &DerivedCase, info: &mut CaseInfo) -> Result<(), Fail> {
     let img = t.compact(true).serialize();
     let sh = u16::from_le_bytes([img[6], img[7]]);
     ensure!(sh == want_sh, "C16.theta.seed_hash_in_image", "image seed hash {sh}, reference {want_sh}");
+    ensure!(t.compact(true).seed_hash() == want_sh, "C16.theta.seed_hash", "CompactThetaSketch::seed_hash {} reference {want_sh}", t.compact(true).seed_hash());
+    // a serial-version-1 image carries no seed hash: the sketch read from it belongs to the seed handed to the reader
+    {
+        let entries: Vec<u64> = if want == 0 { vec![] } else { vec![want] };
+        let v1 = crate::spec::theta::encode_v1(&entries, crate::spec::theta::MAX_THETA);
+        if let Ok(d) = datasketches::theta::CompactThetaSketch::deserialize_with_seed(&v1, c.seed) {
+            ensure!(d.seed_hash() == want_sh, "C16.theta.seed_hash", "serial version 1 image read with seed {:#x}: seed_hash() {} reference {want_sh}", c.seed, d.seed_hash());
+            let again = d.serialize();
+            if again.len() >= 8 && !entries.is_empty() {
+                let sh = u16::from_le_bytes([again[6], again[7]]);
+                ensure!(sh == want_sh, "C16.theta.seed_hash_in_image", "re-serialized v1 image carries seed hash {sh}, reference {want_sh}");
+            }
+        } else {
+            fail!("C16.theta.seed_hash", "valid serial version 1 image rejected under seed {:#x}", c.seed);
+        }
+    }
 
     // HLL (default seed only)
     for ty in [HllType::Hll4, HllType::Hll6, HllType::Hll8] {
